@@ -32,10 +32,12 @@ class Model:
         return ds
 
 
-def initial(nlines=6):
+def initial(nlines=6, with_empty=False):
     m = Model()
     for f in FILES:
         m.t[f] = ([('%s%d' % (f.replace('/', '_'), i)).encode() for i in range(nlines)], 0o644)
+    if with_empty:
+        m.t['z'] = ([], 0o644)   # a zero-length source file
     return m
 
 
@@ -230,6 +232,18 @@ def t_create(m, fresh, f, both):
     return FP('create%s(%s)' % ('B' if both else 'N', f), f if both else None, f, [h], files=[f], apply=ap)
 
 
+def t_fill(m, fresh, f):
+    """both-names creation over an existing zero-length file"""
+    if f not in m.t or m.t[f][0]:
+        return None
+    new = [fresh(), fresh()]
+    h = Hunk(0, 1, [('+', l) for l in new])
+
+    def ap(mm):
+        mm.t[f] = (new, mm.t[f][1])
+    return FP('fill(%s)' % f, f, f, [h], files=[f], apply=ap)
+
+
 def t_create_over(m, fresh, f):
     if f not in m.t or not m.t[f][0]:
         return None
@@ -351,6 +365,16 @@ def t_multi(m, fresh, f, pattern, ctx=1):
               rej=None if ok else f, fail_hunks=[j for j, b in enumerate(pattern) if b], dev=0 if ok else 1)
 
 
+def t_long_end(m, fresh, f):
+    """an End-anchored hunk (leading context only) that is longer than the file: cannot match"""
+    if f not in m.t or not m.t[f][0]:
+        return None
+    n = len(m.t[f][0])
+    body = [(' ', b'J%d' % i) for i in range(n + 1)] + [('-', b'X'), ('+', b'Y')]
+    h = Hunk(1, 1, body)
+    return FP('longend(%s)' % f, f, f, [h], ok=False, rej=f, fail_hunks=[0])
+
+
 def t_misordered(m, fresh, f):
     """two hunks in the wrong order: the second one (for an earlier line) is refused as misordered"""
     if f not in m.t or len(m.t[f][0]) < 6:
@@ -381,6 +405,9 @@ def menu(m, fresh, rich=True):
     out.append(t_rename_onto(m, fresh, 'd/g', 'd/h'))
     out.append(t_isdir(m, fresh, 'd'))
     out.append(t_misordered(m, fresh, 'f'))
+    out.append(t_long_end(m, fresh, 'e/i'))
+    for f in sorted(m.t):
+        out.append(t_fill(m, fresh, f))
     return [t for t in out if t]
 
 
@@ -458,6 +485,24 @@ def enumerate_series(max_fps, max_dev, rich=True, m0=None, allow_after_failure=0
             if cur:
                 rec(m2, series + [cur], [t], nfp + 1, d, now_failed, aft, ff, now_failed and not failed)  # new patch
     rec(m0, [], [], 0, 0, False, 0, set(), False)
+    return out
+
+
+def build_series(m0, steps):
+    """steps: list of patches, each a list of (template function, args...) instantiated against the evolving model"""
+    m = m0.clone()
+    fresh = Fresh()
+    out = []
+    for patch in steps:
+        fps = []
+        for st in patch:
+            t = st[0](m, fresh, *st[1:])
+            if t is None:
+                return None
+            if t.ok:
+                t.apply(m)
+            fps.append(t)
+        out.append(Patch(fps))
     return out
 
 
